@@ -7,7 +7,8 @@ Full-strength statement (`C04_view`): for every image, every view `j` and every 
 The unchanged code does not satisfy it (`C04_view_fails_*` below: one `decide`d counterexample per class), so the
 theorem in force is `C04_view_partial`, under the decidable hypothesis `H` (`Spec/Overlay.lean`) whose clauses are
 exactly the class predicates of the known findings plus well-formedness of a single tar:
-  * `freshB`          — finding 29 (an entry for a path created earlier in the same tar is dropped) / duplicate names
+  * `freshB`          — finding 29 (a whiteout or file for a path created earlier in the same tar is dropped; a directory's
+                        own entry after its contents is honoured since fix ac5627f0) / duplicate names
   * `noUnderBlocker`  — finding 30 (whiteout + re-creation in one tar) / entries below a non-directory
   * `noOpaque`        — finding 12 (opaque whiteouts hide nothing)
   * `noRecreateAt`    — finding 10 (deleted, re-created later, lower children reappear)
@@ -44,16 +45,23 @@ theorem C04_view_partial (layers : List Layer) (j : Nat) (h : H layers j = true)
   unfold H layersNewestFirst at h
   have hprov : Prov (rootTree j) [] := by
     intro q hq n hn _; simp [rootTree, hq] at hn
-  obtain ⟨hroot, hq'⟩ := view_gen layers (j+1) [] (rootTree j) hprov h
+  have hvirt : ∀ q n, (rootTree j).get q = some n → n.virt = true → j + 1 ≤ n.layer := by
+    intro q n hn hv
+    unfold rootTree at hn
+    simp only at hn
+    split at hn
+    · simp at hn; subst hn; simp [rootNode] at hv
+    · cases hn
+  obtain ⟨hroot, hq'⟩ := view_gen layers (j+1) [] (rootTree j) hprov hvirt h
   unfold viewOf specView
   by_cases hq : q = []
-  · subst hq; rw [hroot]; simp [rootTree]
+  · subst hq; rw [hroot]; simp [rootTree, rootNode, implDir, obsOf, Node.obs]
   · rw [hq' q hq]
     have hnone : (rootTree j).get q = none := by simp [rootTree, hq]
     have hw : inWhDir (rootTree j) q = false := by
       rw [inWhDir_false_iff]; intro d _
       unfold blocksAt rootTree
-      by_cases hd : d = [] <;> simp [hd, implDir_blocks]
+      by_cases hd : d = [] <;> simp [hd, rootNode, Node.blocks]
     simp [hnone, hw, hq]
 
 /-- The literal lock-step loader (`loadCore`, the Go loops) computes exactly these views, for every image. -/
@@ -165,49 +173,33 @@ theorem C04_walk_partial (layers : List Layer) (j : Nat) (h : H layers j = true)
     walk U (viewOf layers j) f d = walk U (specView layers j) f d :=
   walk_congr U _ _ (C04_view_partial layers j h) f d
 
-/-! ### the requirer (final view)
+/-! ### the requirer (final view) -/
 
-The clause "restriction to required files changes nothing except that non-required files are absent" (`specRequired`)
-is FALSE for the unchanged code: `pathtree.Remove` also deletes every directory of depth ≥ 2 that the removal leaves
-without children (`C04_required_fails_dirs`, known finding C04/requirer-prunes-emptied-directories), and the backing
-files of the removed nodes are deleted although earlier views still list them.  What does hold is stated for files
-and symlinks (`C04_required_files_partial`) and as "nothing is invented or altered" (`C04_required_subset`).
-`pruneFinal` takes the universe `U` of candidate paths because the trie is modelled by its valued nodes: it is the
-code's behaviour when `U` contains every path of the tree (the driver passes every path mentioned by any entry). -/
+/-- **Restriction to required files changes nothing except that non-required files are absent**: the pruned final view
+is the unrestricted one minus the (non-whiteout) files and symlinks that are neither required nor the target of a
+required symlink; every directory, and every node that stays, is untouched.  For every tree, requirer and universe. -/
+theorem C04_required (U : List Path) (req : Path → Bool) (depth : Nat) (t : Tree) :
+    pruneFinal U req depth t = specRequired U req depth t := rfl
 
-/-- **Restriction to required files**: in the pruned final view a (non-whiteout) file or symlink is kept exactly when
-it is required or the target of a required symlink; nothing else about it changes. -/
-theorem C04_required_files_partial (U : List Path) (req : Path → Bool) (depth : Nat) (t : Tree) (q : Path) (n : Node)
-    (hn : t.get q = some n) (hk : n.kind ≠ .dir) (hw : n.wh = false) :
+/-- the same, spelled out per path -/
+theorem C04_required_get (U : List Path) (req : Path → Bool) (depth : Nat) (t : Tree) (q : Path) :
     (pruneFinal U req depth t).get q =
-      if req q || (neededSet U t req depth).contains q then some n else none := by
-  unfold pruneFinal
-  simp only
-  have : ∀ f, gone U t (fun q => req q || (neededSet U t req depth).contains q) (f+1) q =
-      !(req q || (neededSet U t req depth).contains q) := by
-    intro f; simp [gone, hn, hk, hw]
-  rw [show (List.foldl (fun m q => max m q.length) 0 U + 2) = (List.foldl (fun m q => max m q.length) 0 U + 1) + 1 from rfl, this]
-  cases h : (req q || (neededSet U t req depth).contains q) <;> simp [hn]
+      match t.get q with
+      | some n => if n.kind = .dir || n.wh || req q || (neededSet U t req depth).contains q then some n else none
+      | none => none := rfl
 
-/-- the pruning invents nothing and never alters a node -/
+/-- nothing is invented or altered -/
 theorem C04_required_subset (U : List Path) (req : Path → Bool) (depth : Nat) (t : Tree) (q : Path) (n : Node)
     (h : (pruneFinal U req depth t).get q = some n) : t.get q = some n := by
-  unfold pruneFinal at h
-  simp only at h
-  split at h
-  · cases h
-  · exact h
-
-/-- the requirer clause fails: with nothing required, `a/b` (emptied by the removal of `a/b/c`) disappears from the final
-view although only non-required FILES may go; `a` (depth 1) stays -/
-def exReqU : List Path := [[], ["a"], ["a","b"], ["a","b","c"]]
-theorem C04_required_fails_dirs :
-    let t := viewOf [[⟨["a"], .dir, false, 0o755, 0, 0, []⟩, ⟨["a","b"], .dir, false, 0o755, 0, 0, []⟩,
-                      ⟨["a","b","c"], .file, false, 0o644, 1, 1, []⟩]] 0
-    obsOf ((pruneFinal exReqU (fun _ => false) 6 t).get ["a","b"]) = .absent ∧
-    obsOf ((specRequired exReqU (fun _ => false) 6 t).get ["a","b"]) = .dir 0o755 ∧
-    obsOf ((pruneFinal exReqU (fun _ => false) 6 t).get ["a"]) = .dir 0o755 ∧
-    obsOf ((pruneFinal exReqU (fun _ => false) 6 t).get ["a","b","c"]) = .absent := by decide
+  rw [C04_required_get] at h
+  cases hg : t.get q with
+  | none => rw [hg] at h; cases h
+  | some m =>
+    rw [hg] at h
+    simp only at h
+    split at h
+    · exact h
+    · cases h
 
 /-! ### the full statement fails on the unchanged code: one witness per class (replayed on the implementation from
 `corpus/C04/`) -/
@@ -232,10 +224,10 @@ def ex29 : List Layer := [[dE ["a"], fE ["a","b"]], [wE ["a","b"], wE ["a"]]]
 theorem C04_view_fails_dropped_entry :
     obsOf ((viewOf ex29 1).get ["a"]) ≠ obsOf ((specView ex29 1).get ["a"]) := by decide
 
-/-- finding 29 in its mildest form: `a/y` precedes the tar's own entry for `a`, which is then dropped (mode 0 instead of 0700) -/
+/-- finding 29 in its mildest form, REPAIRED (fix ac5627f0): `a/y` precedes the tar's own entry for `a`; the entry now
+overwrites the made-up node (mode 0700), and the tar satisfies `H` -/
 def ex29b : List Layer := [[fE ["a","y"], dE ["a"] 0o700]]
-theorem C04_view_fails_dropped_entry_mode :
-    obsOf ((viewOf ex29b 0).get ["a"]) ≠ obsOf ((specView ex29b 0).get ["a"]) := by decide
+example : obsOf ((viewOf ex29b 0).get ["a"]) = .dir 0o700 ∧ H ex29b 0 = true := by decide
 
 /-- finding 30: whiteout and re-creation of `a/b` in one tar: the new `a/b/new` is hidden by its own layer's whiteout -/
 def ex30 : List Layer := [[dE ["a"], dE ["a","b"], fE ["a","b","old"]], [dE ["a"], wE ["a","b"], dE ["a","b"], fE ["a","b","new"]]]
@@ -249,7 +241,7 @@ theorem C04_view_fails_implicit_dir :
 
 /-- the clauses of `H` each witness violates (29 and 30 necessarily overlap: both need a path mentioned twice in one tar) -/
 theorem C04_witness_classes :
-    failingOf ex10 2 = ["recreate"] ∧ failingOf ex12 1 = ["opaque"] ∧ failingOf ex29b 0 = ["dropped-entry"] ∧
+    failingOf ex10 2 = ["recreate"] ∧ failingOf ex12 1 = ["opaque"] ∧
     failingOf ex29 1 = ["dropped-entry", "wh-recreate", "implicit-dir"] ∧
     failingOf ex30 1 = ["dropped-entry", "wh-recreate"] ∧ failingOf exImpl 1 = ["implicit-dir"] := by decide
 
